@@ -160,15 +160,16 @@ static void sigsvc_execute(const Plan &p, const ExecOpts &, Result &r) {
                         if (!z || recid != 0) { r.violate("C01", "not_zeroed", api, cell + ": signing failed but the signature is not all-zero" + (recid ? " (recid != 0)" : "")); break; }
                         continue;
                     }
+                    // the verifying side of every other cell is a verify-only process: static context wherever the header allows it
                     // success: low-S, verifies, recovers; sampled cells also byte-equal to the model with the winning RFC 6979 nonce
                     secp256k1_pubkey pk, rec; secp256k1_ecdsa_signature s2;
                     int okp = L01(secp256k1_ec_pubkey_create(ctx, &pk, keys[kc]));
-                    if (entry) L01(secp256k1_ecdsa_recoverable_signature_convert(ctx, &s2, &rsig)); else s2 = sig;
-                    int v = okp && L01(secp256k1_ecdsa_verify(ctx, &s2, msg, &pk));
+                    if (entry) L01(secp256k1_ecdsa_recoverable_signature_convert(frugal_ctx(cells & 1, ctx, "secp256k1_ecdsa_recoverable_signature_convert"), &s2, &rsig)); else s2 = sig;
+                    int v = okp && L01(secp256k1_ecdsa_verify(frugal_ctx(cells & 1, ctx, "secp256k1_ecdsa_verify"), &s2, msg, &pk));
                     r.cmp();
                     if (!v) { r.violate("C01", "invalid_signature", api, cell + ": the retried signature does not verify (or is not low-S)"); break; }
                     if (entry) {
-                        int rc = L01(secp256k1_ecdsa_recover(ctx, &rec, &rsig, msg));
+                        int rc = L01(secp256k1_ecdsa_recover(frugal_ctx(cells & 1, ctx, "secp256k1_ecdsa_recover"), &rec, &rsig, msg));
                         r.cmp();
                         if (!rc || memcmp(&rec, &pk, sizeof pk) != 0) { r.violate("C01", "recover", "secp256k1_ecdsa_recover", cell + ": recovery does not return the signer's public key"); break; }
                         // the other recovery ids (a damaged or guessed id): recovery either fails or returns a key under which the signature verifies
@@ -176,12 +177,12 @@ static void sigsvc_execute(const Plan &p, const ExecOpts &, Result &r) {
                         for (int rid2 = 0; rid2 < 4 && !bad; rid2++) {
                             if (rid2 == recid) continue;
                             secp256k1_ecdsa_recoverable_signature r2; secp256k1_pubkey q; secp256k1_ecdsa_signature c2;
-                            if (!L01(secp256k1_ecdsa_recoverable_signature_parse_compact(ctx, &r2, sig64, rid2))) continue;
-                            int rc2 = L01(secp256k1_ecdsa_recover(ctx, &q, &r2, msg));
+                            if (!L01(secp256k1_ecdsa_recoverable_signature_parse_compact(frugal_ctx(cells & 1, ctx, "secp256k1_ecdsa_recoverable_signature_parse_compact"), &r2, sig64, rid2))) continue;
+                            int rc2 = L01(secp256k1_ecdsa_recover(frugal_ctx(cells & 1, ctx, "secp256k1_ecdsa_recover"), &q, &r2, msg));
                             r.cmp();
                             if (rc2) {
-                                L01(secp256k1_ecdsa_recoverable_signature_convert(ctx, &c2, &r2));
-                                if (!L01(secp256k1_ecdsa_verify(ctx, &c2, msg, &q))) { r.violate("C01", "recover", "secp256k1_ecdsa_recover", cell + ": recovery id " + std::to_string(rid2) + " returned a key under which the signature does not verify"); bad = true; }
+                                L01(secp256k1_ecdsa_recoverable_signature_convert(frugal_ctx(cells & 1, ctx, "secp256k1_ecdsa_recoverable_signature_convert"), &c2, &r2));
+                                if (!L01(secp256k1_ecdsa_verify(frugal_ctx(cells & 1, ctx, "secp256k1_ecdsa_verify"), &c2, msg, &q))) { r.violate("C01", "recover", "secp256k1_ecdsa_recover", cell + ": recovery id " + std::to_string(rid2) + " returned a key under which the signature does not verify"); bad = true; }
                                 else r.probe("other_recid_recovers_valid_key");
                             }
                         }
